@@ -507,7 +507,10 @@ Definition st_c03 E cfg (a e : istr) (s : wstep) := c03_step E cfg (w_now s) (w_
 Definition st_c03i (E : env) (cfg : config) (a e : istr) (s : wstep) := c03_init_step (w_obs s).
 Definition st_c04 (E : env) (cfg : config) (a e : istr) (s : wstep) := c04_step E (w_ans s) (w_obs s).
 Definition st_c06 E cfg (a e : istr) (s : wstep) := c06_step E cfg (w_now s) (w_rq s) (w_ans s) (w_obs s).
-Definition st_c07 (E : env) (cfg : config) (a e : istr) (s : wstep) := c07_e2e_step E cfg (w_now s) (w_rq s) (w_obs s).
+(* flag 6: the harness read the request's (genuine, well-formed) cookies with an independent reader -- own codec,
+   own base64 + gzip -- and the code's session getters returned another ID or refresh token for the same cookies *)
+Definition st_c07 (E : env) (cfg : config) (a e : istr) (s : wstep) :=
+  c07_e2e_step E cfg (w_now s) (w_rq s) (w_obs s) && no_flag 6 (w_obs s).
 Definition st_c08 E cfg a (e : istr) (s : wstep) := c08_step E cfg a (w_now s) (w_rq s) (w_ans s) (w_obs s).
 Definition st_c10 E cfg (a e : istr) (s : wstep) := c10_step E cfg (w_now s) (w_rq s) (w_ans s) (w_obs s).
 Definition st_c11 E cfg (a : istr) e (s : wstep) := c11_step E cfg e (w_now s) (w_rq s) (w_obs s).
